@@ -17,8 +17,8 @@ From OIDC Require Import Lib C04_OP C04_Ledger C04_Hist C04_spec C04_proofs C04_
    subject, client, scopes and nonce. *)
 Theorem C04_exchange_sound : forall (H : string -> string) (cf : cfg) ops h s,
   exec H cf ops = (h, s) ->
-  forall h1 e h2 cr code uri ver t,
-    h = h1 ++ e :: h2 -> e_op e = TokenCode cr code uri ver -> e_out e = OTokens t ->
+  forall h1 e h2 pl f cr code uri ver t,
+    h = h1 ++ e :: h2 -> e_op e = TokenCode pl f cr code uri ver -> e_out e = OTokens t ->
   exists c q,
     code = Some c
     /\ (exists ecb, In ecb h1 /\ e_op ecb = Callback (q_id q) /\ e_out ecb = OCode c)
@@ -38,13 +38,14 @@ Theorem C04_exchange_sound : forall (H : string -> string) (cf : cfg) ops h s,
 Proof. exact exchange_sound. Qed.
 Print Assumptions C04_exchange_sound.
 
-(* No code appears in two successful exchanges of one history. *)
+(* No code appears in two successful exchanges of one history - wherever the parameters
+   travel (pl) and whichever storage call fails during either exchange (f). *)
 Theorem C04_single_use : forall (H : string -> string) (cf : cfg) ops h s,
   exec H cf ops = (h, s) ->
-  forall h1 e1 h2 e2 h3 c cr1 u1 v1 cr2 u2 v2,
+  forall h1 e1 h2 e2 h3 c pl1 f1 cr1 u1 v1 pl2 f2 cr2 u2 v2,
     h = h1 ++ e1 :: h2 ++ e2 :: h3 ->
-    e_op e1 = TokenCode cr1 (Some c) u1 v1 -> is_tokens (e_out e1) = true ->
-    e_op e2 = TokenCode cr2 (Some c) u2 v2 -> is_tokens (e_out e2) = true -> False.
+    e_op e1 = TokenCode pl1 f1 cr1 (Some c) u1 v1 -> is_tokens (e_out e1) = true ->
+    e_op e2 = TokenCode pl2 f2 cr2 (Some c) u2 v2 -> is_tokens (e_out e2) = true -> False.
 Proof. exact single_use. Qed.
 Print Assumptions C04_single_use.
 
@@ -62,6 +63,29 @@ Theorem C04_not_done_no_code_step : forall (H : string -> string) (cf : cfg) r s
   forall c, snd (step H cf r s (Callback n)) <> OCode c.
 Proof. exact not_done_no_code_step. Qed.
 Print Assumptions C04_not_done_no_code_step.
+
+(* A refused exchange - bad input, or a storage call failing at any point of an otherwise
+   valid exchange (f = Some m: code lookup, client lookup, token creation, signing key,
+   private claims, removal of the redeemed request) - changes nothing the history can refer
+   to; with C04_single_use: the code still yields tokens at most once. *)
+Theorem C04_refusal_keeps_state : forall (H : string -> string) (cf : cfg) r s pl f cr code uri ver s' x,
+  step H cf r s (TokenCode pl f cr code uri ver) = (s', x) -> is_tokens x = false -> s' = s.
+Proof. exact code_refusal_keeps_state. Qed.
+Print Assumptions C04_refusal_keeps_state.
+
+(* Where the parameters of a token request travel - body, query string, grant_type in the
+   query string only, conflicting grant_type in the query string, decoy credential in the
+   body - does not change the answer (grant_type is read first-value/body-first, every
+   other field last-value/query-last, on both routers). *)
+Theorem C04_placement_irrelevant : forall (H : string -> string) (cf : cfg) r s o,
+  step H cf r s o = step H cf r s
+    (match o with
+     | TokenCode _ f cr code uri ver => TokenCode P_body f cr code uri ver
+     | TokenRefresh _ cr rt sc => TokenRefresh P_body cr rt sc
+     | other => other
+     end).
+Proof. exact placement_irrelevant. Qed.
+Print Assumptions C04_placement_irrelevant.
 
 (* The property predicate of the check (C04_Ledger.c04_ok folded over the history, the
    function that is evaluated on the implementation's answers) accepts every history of
